@@ -86,15 +86,22 @@ def project_sugared(tree):
     collect(tree)
     rows = []
 
+    def inc_of(row):
+        """the include_if cell in the model's language: a literal, or the comparison {{ v == "word" }} / {{ v != "word" }}"""
+        mt = sheetgen.INCLUDE_CMP.match(str(row.get("include_if", "")).strip())
+        if mt:
+            return ("cmp", mt.group(1), mt.group(2) == "==", mt.group(3))
+        return "true" if sheetgen.include(row) else "false"
+
     def walk(items):
         for it in items:
             if it[0] == "row":
                 r = it[1]
-                rows.append(dict(kind="plain", inc="true" if sheetgen.include(r) else "false", id=_segs(r.get("row_id", ""), names),
+                rows.append(dict(kind="plain", inc=inc_of(r), id=_segs(r.get("row_id", ""), names),
                                  text=_segs(_cells(r, ("row_id", "include_if")), names)))
             else:
                 head = it[1]
-                h = dict(kind=it[0], inc="true" if sheetgen.include(head) else "false", id=_segs(head.get("row_id", ""), names),
+                h = dict(kind=it[0], inc=inc_of(head), id=_segs(head.get("row_id", ""), names),
                          text=_segs(_cells(head, ("row_id", "include_if", "type")), names))
                 if it[0] == "for":
                     h.update(vars=[it[2]] + ([it[3]] if it[3] else []), iter=("lit", [str(e) for e in it[4]]))
@@ -119,14 +126,11 @@ def project_desugared(des):
 
 def compare_desugarings(ctx, tree, des, rep):
     """model desugar (wire 103) of the projected twin vs the projection of the harness's reference desugaring"""
-    if any(sheetgen.INCLUDE_CMP.match(str(r.get("include_if", ""))) for r in sheetgen.flatten_sugared(tree)):
-        # an include_if cell that compares a loop variable with a word: Comp/Blocks.v's inclusion cells are literals and plain
-        # references only (IncTrue | IncFalse | IncRef), the comparison form is outside the model's language for now; the twin
-        # oracle (implementation, sugared vs reference desugaring) still judges these sheets
-        ctx.count("desugar_model_vs_twin_reference_skipped(include_if comparison outside the model language)")
-        return
-    md = c03_blocks.model_desugar(ctx.model, project_sugared(tree), CTX)
+    rows = project_sugared(tree)
+    md = c03_blocks.model_desugar(ctx.model, rows, CTX)
     want = ("ok", project_desugared(des))
+    if any(isinstance(r["inc"], tuple) for r in rows):
+        ctx.count("desugar_model_vs_twin_reference_with_comparison_cell")
     ctx.count("desugar_model_vs_twin_reference")
     if md != want:
         ctx.disagree("twins: desugar (Comp/Desugar.v) of the sugared sheet differs from the reference desugaring the twin is built from",
